@@ -5,6 +5,8 @@
    gated scripted DataSource and logs, in one global order, every OBSERVABLE action:
      Reset       new run: the source's first chain                      (environment)
      Src         the source switches to a new chain (extend / reorg)    (environment)
+     Stop / Restart  the node's context is cancelled / Run has returned and a new Synchronizer
+                 over a new Blockchain object on the same database was started   (environment)
      Req / Resp  a BlockByNumber call enters the gate / is answered     (node / environment)
      ReqLatest / RespLatest   the same for BlockHeaderLatest
      Stored      OnSyncStepDone(OpStore): Blockchain.Store returned nil for the block of answer rid
@@ -55,9 +57,17 @@ TReset ==
   /\ cancelled' = FALSE /\ nextFetch' = 0 /\ weff' = 1 /\ fq' = <<>> /\ vq' = <<>> /\ rv' = NoRv /\ sp' = NoSp
   /\ highest' = -1 /\ catchUp' = FALSE /\ poll' = IdlePoll /\ polls' = 0
   /\ curr' = NoReorg /\ revSince' = <<>> /\ seenVers' = {}
+  /\ stopping' = FALSE /\ restarts' = 0
   /\ headsQ' = <<>> /\ reorgQ' = <<>> /\ flags' = {}
 
 TSrc == IsEvent("Src") /\ SrcSet(Ev.chain) /\ Quiet
+
+\* the harness cancels the Synchronizer's context / has seen Run return and started a new Synchronizer
+\* (new feeds: whatever the old subscriptions had not delivered is gone)
+TStop == IsEvent("Stop") /\ Shutdown /\ Quiet
+TRestart ==
+  /\ IsEvent("Restart") /\ NodeRestart
+  /\ headsQ' = <<>> /\ reorgQ' = <<>> /\ UNCHANGED flags
 
 BlockResp == [r |-> Ev.r, ver |-> Ev.ver, tag |-> Ev.tag, corr |-> Ev.corr]
 LatestResp == [r |-> Ev.r, ver |-> Ev.ver, h |-> Ev.h, tag |-> Ev.tag]
@@ -124,7 +134,7 @@ TEnd ==
 Silent == NodeInternal /\ UNCHANGED <<l, headsQ, reorgQ, flags>>
 
 TraceNext ==
-  \/ TReset \/ TSrc \/ TReq \/ TResp \/ TReqLatest \/ TRespLatest
+  \/ TReset \/ TSrc \/ TStop \/ TRestart \/ TReq \/ TResp \/ TReqLatest \/ TRespLatest
   \/ TStored \/ TReverted \/ TNewHead \/ TReorgMsg \/ TEnd
   \/ Silent
 
